@@ -151,10 +151,11 @@ def _ask(op, name, arg, dtype):
         return op.root_decomposition()                       # bare call: the slot without arguments
     if name == "root_decomposition":
         return op.root_decomposition(method=METHOD_ARG[arg])
+    # (argument 0 = the bare call: the cache slot without arguments, which is also the one derived operators are handed transplanted factors in)
     if name == "root_inv_decomposition":
-        return op.root_inv_decomposition(method=METHOD_ARG[arg])
+        return op.root_inv_decomposition() if arg == 0 else op.root_inv_decomposition(method=METHOD_ARG[arg])
     if name == "diagonalization":
-        return op.diagonalization(method=METHOD_ARG[arg])
+        return op.diagonalization() if arg == 0 else op.diagonalization(method=METHOD_ARG[arg])
     if name == "root_inv_decomposition_vecs":
         g = torch.Generator().manual_seed(17)
         v = torch.randn(*op.batch_shape, n, 1, generator=g, dtype=torch.float64).to(dtype)
